@@ -734,6 +734,10 @@ func (s *Server) handleResponse(response *agent.Response) error {
 			}
 		}
 	case *agent.Response_End:
+		if s.begin == nil {
+			// The UDF sent an end batch message without a begin batch message.
+			return errors.New("received end batch message without a begin batch message")
+		}
 		begin := edge.NewBeginBatchMessage(
 			msg.End.Name,
 			msg.End.Tags,
@@ -754,7 +758,8 @@ func (s *Server) handleResponse(response *agent.Response) error {
 		s.begin = nil
 		s.points = nil
 	default:
-		panic(fmt.Sprintf("unexpected response message %T", msg))
+		// Do not let a misbehaving UDF bring down the whole process.
+		return fmt.Errorf("unexpected response message %T", msg)
 	}
 	return nil
 }
